@@ -76,6 +76,23 @@ def main(tier):
                     o = P.outcome(fn)
                     if o[0] != "ok" or not same(o[1], row[name]):
                         bad("Fraction %s number" % name, row, {"predicted": row[name], "observed": repr(o[1]) if o[0] == "ok" else o[2]})
+            # ... and plain numbers that are short decimals, not whole (0.1, 0.03, -0.25, 0.35, 2.5): the same exact rational results
+            if q["d"] in (2, 4, 5, 8, 10, 20, 25, 50, 100):
+                kf = q["n"] / q["d"]
+                nc = [("add", lambda: A + kf), ("add", lambda: kf + A), ("sub", lambda: A - kf), ("mul", lambda: A * kf), ("mul", lambda: kf * A)]
+                if kf != 0:
+                    nc += [("div", lambda: A / kf)]
+                for name, fn in nc:
+                    o = P.outcome(fn)
+                    if o[0] != "ok" or not same(o[1], row[name]):
+                        bad("Fraction %s short decimal %r" % (name, kf), row, {"predicted": row[name], "observed": repr(o[1]) if o[0] == "ok" else o[2]})
+            if p["d"] in (2, 4, 5, 8, 10, 20, 25, 50, 100):
+                kf2 = p["n"] / p["d"]
+                nc = [("sub", lambda: kf2 - B)] + ([("div", lambda: kf2 / B)] if q["n"] != 0 else [])
+                for name, fn in nc:
+                    o = P.outcome(fn)
+                    if o[0] != "ok" or not same(o[1], row[name]):
+                        bad("short decimal %r %s Fraction" % (kf2, name), row, {"predicted": row[name], "observed": repr(o[1]) if o[0] == "ok" else o[2]})
             if p["d"] == 1:
                 k = p["n"]
                 o = P.outcome(lambda: k - B)
